@@ -99,8 +99,12 @@ func c04MsgURL(method string) string {
 func c04Grant(method string) (string, *stakingtypes.StakeAuthorization) {
 	nw, kr := fixture()
 	ctx := nw.GetContext()
-	a, _ := nw.App.AuthzKeeper.GetAuthorization(ctx, puppetAddr.Bytes(), kr.GetKey(puppetOrigin).AccAddr, c04MsgURL(method))
+	a, exp := nw.App.AuthzKeeper.GetAuthorization(ctx, puppetAddr.Bytes(), kr.GetKey(puppetOrigin).AccAddr, c04MsgURL(method))
 	if a == nil {
+		return "none", nil
+	}
+	if exp != nil && !exp.After(ctx.BlockTime()) {
+		// the grant's last instant: the authz keeper still returns it but cannot store it again; for a spend it is over
 		return "none", nil
 	}
 	sa, ok := a.(*stakingtypes.StakeAuthorization)
@@ -123,7 +127,42 @@ func c04Grant(method string) (string, *stakingtypes.StakeAuthorization) {
 	return "L" + sa.MaxTokens.Amount.String() + "/" + allow, sa
 }
 
+// c04Expiry: when the stored grant ends (nil = no grant)
+func c04Expiry(method string) *time.Time {
+	nw, kr := fixture()
+	_, exp := nw.App.AuthzKeeper.GetAuthorization(nw.GetContext(), puppetAddr.Bytes(), kr.GetKey(puppetOrigin).AccAddr, c04MsgURL(method))
+	return exp
+}
+
+// the end date the signer gave each grant (set by the check's own record of approvals, never read back)
+var c04GhostExpiry = map[string]time.Time{}
+
 func c04Gen(r *rand.Rand, tier string) []Case {
+	out := c04GenBody(r, tier)
+	// fixed case, last (it moves the clock by more than a year): a limited grant, a partial spend a hundred days later,
+	// another one three hundred days after that — past the end the signer gave the grant
+	for _, method := range []string{"delegate"} {
+		out = append(out, Case{
+			fmt.Sprintf("sallow approve 5000 - ? # method=%s", method),
+			fmt.Sprintf("scall 0 1 0 0 ? ? ? # method=%s amt=abs:100", method),
+			"tick # days=100",
+			fmt.Sprintf("scall 0 1 0 0 ? ? ? # method=%s amt=abs:200", method),
+			"tick # days=300",
+			fmt.Sprintf("scall 0 1 0 0 ? ? ? # method=%s amt=abs:300", method),
+			fmt.Sprintf("scall 0 1 0 0 ? ? ? # method=%s amt=abs:50 swallow=1", method),
+		})
+		// … and a grant used in its very last instant (block time = end of the grant) by a contract that ignores failures
+		out = append(out, Case{
+			fmt.Sprintf("sallow approve 5000 - ? # method=%s", method),
+			"tick # days=365",
+			fmt.Sprintf("scall 0 1 0 0 ? ? ? # method=%s amt=abs:100 swallow=1", method),
+			fmt.Sprintf("scall 0 1 0 0 ? ? ? # method=%s amt=abs:100", method),
+		})
+	}
+	return out
+}
+
+func c04GenBody(r *rand.Rand, tier string) []Case {
 	n := 14
 	if tier == "thorough" {
 		n = 400
@@ -395,7 +434,17 @@ func c04Exec(c Case) (outs []string, fails []Failure, tags []string) {
 					st = "ok"
 					g := c04Ghost[method]
 					switch f[1] {
+					case "revoke":
+						delete(c04GhostExpiry, method)
+					}
+					switch f[1] {
 					case "approve":
+						// (an approval is good for a year, through the precompile and for the grants this check makes natively)
+						if amt.Sign() == 0 {
+							delete(c04GhostExpiry, method)
+						} else {
+							c04GhostExpiry[method] = nw.GetContext().BlockTime().Add(365 * 24 * time.Hour)
+						}
 						if f[2] == "max" || amt.Sign() == 0 {
 							c04Ghost[method] = &c04Ledger{}
 						} else {
@@ -416,6 +465,13 @@ func c04Exec(c Case) (outs []string, fails []Failure, tags []string) {
 				out = st + " " + post
 				tags = append(tags, "allow-"+f[1]+"-"+st)
 				checkThird()
+			case "tick":
+				// time passes (days)
+				out = "skip"
+				if err := nw.NextBlockAfter(time.Duration(vmIdx(kv["days"])) * 24 * time.Hour); err != nil {
+					panic(err)
+				}
+				tags = append(tags, "time-advanced")
 			case "jailval", "unjailval":
 				out = "skip"
 				va, e := sdk.ValAddressFromBech32(c04Vals[vmIdx(f[1])%len(c04Vals)])
@@ -532,6 +588,7 @@ func c04Exec(c Case) (outs []string, fails []Failure, tags []string) {
 				}
 				f[4] = fmt.Sprint(val)
 				pre, preAuth := c04Grant(method)
+				expPre := c04Expiry(method)
 				lim := big.NewInt(1000)
 				if preAuth != nil && preAuth.MaxTokens != nil {
 					lim = preAuth.MaxTokens.Amount.BigInt()
@@ -622,6 +679,19 @@ func c04Exec(c Case) (outs []string, fails []Failure, tags []string) {
 					return
 				}
 				tags = append(tags, "call-ok", fmt.Sprintf("ok:caller=%d,deleg=%d", caller, deleg))
+				if caller != 0 {
+					// a spend never changes when the grant ends, and no spend happens after the end the signer gave it
+					now := nw.GetContext().BlockTime()
+					if expPost := c04Expiry(method); expPre != nil && expPost != nil && !expPost.Equal(*expPre) {
+						fl("C04:spend-changed-grant-expiration", fmt.Sprintf("a spend by the contract moved the end of the grant from %s to %s", expPre.UTC().Format(time.RFC3339), expPost.UTC().Format(time.RFC3339)))
+					}
+					if g, ok := c04GhostExpiry[method]; ok && now.After(g) {
+						fl("C04:spent-after-the-grant-ended", fmt.Sprintf("the contract spent at %s; the grant the signer gave ended at %s", now.UTC().Format(time.RFC3339), g.UTC().Format(time.RFC3339)))
+					}
+					if now.After(nw.GetContext().BlockTime().Add(-time.Hour)) {
+						tags = append(tags, "spend-with-expiry-checked")
+					}
+				}
 				debited := -1
 				for id := 0; id < 2; id++ {
 					if b1[id].Cmp(b0[id]) != 0 {
